@@ -315,16 +315,97 @@ Section Pieces.
 End Pieces.
 
 (* ---------- LongSentences ---------- *)
-Lemma long_sentence_spans_total ss : exists l, long_sentence_spans hull_unwrap ss = Ok l.
+Lemma position_some_lt {A} (f : A -> bool) l i : position f l = Some i -> i < length l.
+Proof.
+  revert i. induction l as [|x r IH]; intros i; cbn [position]; [discriminate|].
+  destruct (f x); [intros [= <-]; cbn [length]; lia|].
+  destruct (position f r) as [j|]; cbn [option_map]; [|discriminate].
+  intros [= <-]. specialize (IH j eq_refl). cbn [length]. lia.
+Qed.
+
+(* position = Some i: the first i elements fail f, element i satisfies it *)
+Lemma position_some_spec {A} (f : A -> bool) l i :
+  position f l = Some i ->
+  Forall (fun x => f x = false) (firstn i l) /\ exists x r, skipn i l = x :: r /\ f x = true.
+Proof.
+  revert i. induction l as [|x r IH]; intros i; cbn [position]; [discriminate|].
+  destruct (f x) eqn:Fx.
+  - intros [= <-]. split; [constructor|]. exists x, r. now split.
+  - destruct (position f r) as [j|]; cbn [option_map]; [|discriminate].
+    intros [= <-]. destruct (IH j eq_refl) as [H1 H2]. cbn [firstn skipn]. split; [now constructor|exact H2].
+Qed.
+
+Lemma position_none_spec {A} (f : A -> bool) l : position f l = None -> Forall (fun x => f x = false) l.
+Proof.
+  induction l as [|x r IH]; cbn [position]; [constructor|].
+  destruct (f x) eqn:Fx; [discriminate|].
+  destruct (position f r); cbn [option_map]; [discriminate|]. intros _. constructor; [exact Fx|now apply IH].
+Qed.
+
+Lemma first_visible_lt s : s <> [] -> first_visible s < length s.
+Proof.
+  intros Hs. unfold first_visible.
+  destruct (position _ s) as [i|] eqn:P; [eapply position_some_lt; eassumption|].
+  destruct s; [congruence|cbn [length]; lia].
+Qed.
+
+(* sentence[first..] never slices out of range and is never empty for a non-empty sentence *)
+Lemma visible_slice s : s <> [] ->
+  slice_from s (first_visible s) = Ok (skipn (first_visible s) s) /\ skipn (first_visible s) s <> [].
+Proof.
+  intros Hs. pose proof (first_visible_lt s Hs) as HL. split; [apply slice_from_ok; lia|].
+  intros E. apply (f_equal (@length tok)) in E. rewrite skipn_length in E. cbn [length] in E. lia.
+Qed.
+
+Lemma visible_hull_ok s : s <> [] -> exists sp, visible_hull s = Ok sp /\ sstart sp <= send sp.
+Proof.
+  intros Hs. destruct (visible_slice s Hs) as [E NE]. unfold visible_hull. rewrite E. cbn [bind].
+  now apply hull_unwrap_ok.
+Qed.
+
+Lemma Forall_skipn {A} (Q : A -> Prop) n (l : list A) : Forall Q l -> Forall Q (skipn n l).
+Proof.
+  revert l. induction n as [|n IH]; intros l H; [exact H|]. destruct l as [|x r]; [constructor|].
+  inversion H; subst. cbn [skipn]. now apply IH.
+Qed.
+
+Lemma visible_hull_in n s sp :
+  Forall (fun t => sstart (tspan t) <= n /\ send (tspan t) <= n) s ->
+  visible_hull s = Ok sp -> sstart sp <= send sp /\ send sp <= n.
+Proof.
+  intros HF. unfold visible_hull, slice_from. destruct (length s <? first_visible s); [discriminate|]. cbn [bind].
+  apply hull_unwrap_in. now apply Forall_skipn.
+Qed.
+
+(* what 1bab09f is about: the flagged slice starts at the first token that is not whitespace (all tokens
+   before it are whitespace); a sentence of whitespace only is flagged whole *)
+Lemma visible_hull_spec s :
+  (exists x r, skipn (first_visible s) s = x :: r /\ flag F_WS x = false /\
+               Forall (fun t => flag F_WS t = true) (firstn (first_visible s) s) /\
+               visible_hull s = hull_unwrap (x :: r)) \/
+  (Forall (fun t => flag F_WS t = true) s /\ visible_hull s = hull_unwrap s).
+Proof.
+  unfold visible_hull, first_visible.
+  destruct (position (fun t => negb (flag F_WS t)) s) as [i|] eqn:P.
+  - left. destruct (position_some_spec _ _ _ P) as [H1 [x [r [E Fx]]]].
+    exists x, r. split; [exact E|]. split; [now apply Bool.negb_true_iff in Fx|]. split.
+    + eapply Forall_impl; [|exact H1]. cbn. intros t Ht. now apply Bool.negb_false_iff in Ht.
+    + rewrite slice_from_ok by (apply position_some_lt in P; lia). cbn [bind]. now rewrite E.
+  - right. split.
+    + eapply Forall_impl; [|exact (position_none_spec _ _ P)]. cbn. intros t Ht. now apply Bool.negb_false_iff in Ht.
+    + unfold slice_from. cbn [Nat.ltb Nat.leb skipn bind]. reflexivity.
+Qed.
+
+Lemma long_sentence_spans_total ss : exists l, long_sentence_spans visible_hull ss = Ok l.
 Proof.
   induction ss as [|s r [l IH]]; [now exists []|]. cbn [long_sentence_spans].
   destruct (40 <? count_words s) eqn:E.
   - assert (s <> []) as Hs. { intros ->. cbn in E. discriminate. }
-    destruct (hull_unwrap_ok s Hs) as [sp [Es _]]. rewrite Es, IH. cbn [bind]. eexists; reflexivity.
+    destruct (visible_hull_ok s Hs) as [sp [Es _]]. rewrite Es, IH. cbn [bind]. eexists; reflexivity.
   - exists l. exact IH.
 Qed.
 
-(* LongSentences (as fixed by be8029b) returns normally on every token list — ordered or not *)
+(* LongSentences (as fixed by be8029b and 1bab09f) returns normally on every token list — ordered or not *)
 Theorem long_sentences_total ts : exists l, long_sentences ts = Ok l.
 Proof.
   unfold long_sentences, iter_sentences. destruct (iter_by_total (flag F_SENTTERM) ts) as [cs [E _]].
@@ -334,14 +415,14 @@ Qed.
 (* … and every span it reports lies inside the text when the tokens do *)
 Lemma long_sentence_spans_in n ss l :
   Forall (Forall (fun t => sstart (tspan t) <= n /\ send (tspan t) <= n)) ss ->
-  long_sentence_spans hull_unwrap ss = Ok l -> Forall (fun sp => sstart sp <= send sp /\ send sp <= n) l.
+  long_sentence_spans visible_hull ss = Ok l -> Forall (fun sp => sstart sp <= send sp /\ send sp <= n) l.
 Proof.
   revert l. induction ss as [|s r IH]; intros l HF; cbn [long_sentence_spans].
   - intros [= <-]. constructor.
   - inversion HF as [|? ? Hs Hr]; subst. destruct (40 <? count_words s).
-    + destruct (hull_unwrap s) as [sp|] eqn:Es; [|discriminate]. cbn [bind].
-      destruct (long_sentence_spans hull_unwrap r) as [l'|] eqn:El; [|discriminate]. cbn [bind].
-      intros [= <-]. constructor; [eapply hull_unwrap_in; eassumption|now apply IH].
+    + destruct (visible_hull s) as [sp|] eqn:Es; [|discriminate]. cbn [bind].
+      destruct (long_sentence_spans visible_hull r) as [l'|] eqn:El; [|discriminate]. cbn [bind].
+      intros [= <-]. constructor; [eapply visible_hull_in; eassumption|now apply IH].
     + now apply IH.
 Qed.
 
@@ -366,20 +447,34 @@ Theorem long_sentences_old_refuted :
   long_sentences_old f2_witness = Panic PSpanOrder /\ exists l, long_sentences f2_witness = Ok l /\ l = [mkspan 3 91].
 Proof. split; [vm_compute; reflexivity|]. eexists. split; vm_compute; reflexivity. Qed.
 
-(* ---------- F30: the Go `go:` directive cut (debug builds) ---------- *)
+(* ---------- the Go `go:` directive cut ---------- *)
 Require Import GoDirective.
-(* `//go:build x\n//` : without_initiators = 2..12, first newline at 12; 14 > 12 and Span::is_empty()
-   computes end - start *)
-Lemma go_directive_refuted :
-  go_directive_cut (mkspan 2 12) 12 (map N.of_nat [103; 111; 58; 98; 117; 105; 108; 100; 32; 120]) = Panic PUnderflow.
-Proof. vm_compute. reflexivity. Qed.
-(* whenever the directive is not the last line of the comment block the cut is harmless *)
-Lemma go_directive_ok actual terminator (src : text) :
-  sstart actual + terminator <= send actual -> exists r, go_directive_cut actual terminator src = Ok r.
+(* as it is now (017736b): whenever `actual` ends inside the source — without_initiators computes
+   actual.end = source.len() - k — the cut never panics, for EVERY position of the first newline; and
+   what is handed to the inner parser is exactly source[terminator..actual.end] *)
+Theorem go_directive_total actual terminator (src : text) :
+  send actual <= length src ->
+  exists r, go_directive_cut actual terminator src = Ok r /\
+            (r = None <-> send actual <= terminator) /\
+            (forall c, r = Some c -> c = slice src terminator (send actual) /\ length c = send actual - terminator).
 Proof.
-  intros H. unfold go_directive_cut, try_get_content. cbn [sstart send].
-  destruct (_ || _ || _); [|eexists; reflexivity].
-  unfold span_len, sub_chk. cbn [sstart send].
-  destruct (send actual <? sstart actual + terminator) eqn:E; [apply Nat.ltb_lt in E; lia|].
-  cbn [bind]. destruct (_ =? 0); eexists; reflexivity.
+  intros H. unfold go_directive_cut. destruct (send actual <=? terminator) eqn:E.
+  - apply Nat.leb_le in E. exists None. split; [reflexivity|]. split; [tauto|discriminate].
+  - apply Nat.leb_gt in E. unfold get_content, try_get_content. cbn [sstart send].
+    replace (send actual <? terminator) with false by (symmetry; apply Nat.ltb_ge; lia).
+    replace (length src <=? terminator) with false by (symmetry; apply Nat.leb_gt; lia).
+    replace (length src <? send actual) with false by (symmetry; apply Nat.ltb_ge; lia).
+    cbn [orb bind]. eexists. split; [reflexivity|]. split; [split; [discriminate|lia]|].
+    intros c [= <-]. split; [reflexivity|]. unfold slice. rewrite firstn_length, skipn_length. lia.
 Qed.
+
+(* History (F30, before 017736b).  `//go:build x\n//` : without_initiators = 2..12, first newline at 12;
+   14 > 12 and Span::is_empty() computes end - start *)
+Lemma go_directive_old_refuted :
+  go_directive_cut_old (mkspan 2 12) 12 (map N.of_nat [103; 111; 58; 98; 117; 105; 108; 100; 32; 120]) = Panic PUnderflow.
+Proof. vm_compute. reflexivity. Qed.
+(* the same input now: 12 >= 12, nothing to lint, no arithmetic at all *)
+Lemma go_directive_now_ok :
+  go_directive_cut (mkspan 2 12) 12 (map N.of_nat [47; 47; 103; 111; 58; 98; 117; 105; 108; 100; 32; 120; 10; 47; 47]) = Ok None /\
+  go_directive_cut (mkspan 2 16) 12 (map N.of_nat [47; 47; 103; 111; 58; 98; 117; 105; 108; 100; 32; 120; 10; 47; 47; 97]) = Ok (Some (map N.of_nat [10; 47; 47; 97])).
+Proof. split; vm_compute; reflexivity. Qed.
